@@ -22,17 +22,20 @@ import (
 	"context"
 	"encoding/json"
 	"fmt"
+	"math/big"
 	"path/filepath"
 	"sort"
 	"strconv"
 	"strings"
 
+	"github.com/iden3/go-iden3-crypto/constants"
 	"github.com/iden3/go-schema-processor/v2/merklize"
 
 	"vharness/common"
 	"vharness/coqgen"
 	"vharness/ctxload"
 	"vharness/docgen"
+	"vharness/hashers"
 	"vharness/mzrun"
 )
 
@@ -58,7 +61,9 @@ type caseInput struct {
 	Probes   []probe                    `json:"probes,omitempty"`
 	Features []string                   `json:"features,omitempty"`
 	CredType string                     `json:"cred_type,omitempty"`
-	Only     string                     `json:"only,omitempty"` // set on a failure: the dotted path / probe that failed
+	Hasher   int                        `json:"hasher,omitempty"`     // index into hasherSet (0 = default Poseidon)
+	MzOpts   bool                       `json:"mz_options,omitempty"` // the resolvers are called on Merklizer.Options()
+	Only     string                     `json:"only,omitempty"`       // set on a failure: the dotted path / probe that failed
 }
 
 type query struct {
@@ -82,6 +87,8 @@ type drv struct {
 	loader *ctxload.Loader
 	cases  []*ccase
 	nURL   int
+	cur    *merklize.Options
+	hs     []namedHasher
 }
 
 func normParts(p []any) []any {
@@ -163,7 +170,28 @@ func noIndices(p []string) []string {
 	return out
 }
 
-func (d *drv) opts() merklize.Options { return merklize.Options{DocumentLoader: d.loader} }
+// opts: the Options of the case being run (offline loader + the case's hasher)
+func (d *drv) opts() merklize.Options {
+	if d.cur != nil {
+		return *d.cur
+	}
+	return merklize.Options{DocumentLoader: d.loader}
+}
+
+type namedHasher struct {
+	name string
+	h    merklize.Hasher
+}
+
+// hasherSet: default; same Prime but another HashBytes; same Prime but another Hash; another Prime.
+func hasherSet() []namedHasher {
+	return []namedHasher{
+		{"default", nil},
+		{"salted-bytes", hashers.Mod{P: new(big.Int).Set(constants.Q), SaltBytes: []byte("salt:"), Name: "salted-bytes"}},
+		{"salted-hash", hashers.Mod{P: new(big.Int).Set(constants.Q), SaltElem: big.NewInt(7), Name: "salted-hash"}},
+		{"mod2^31-1", hashers.Mod{P: big.NewInt(2147483647), Name: "mod2^31-1"}},
+	}
+}
 
 // failure classifier: the two known input classes get their narrow names.
 func classify(lf *leaf, def string) string {
@@ -318,7 +346,14 @@ func (d *drv) runCase(in *caseInput) {
 	for u, b := range in.Loader {
 		_ = d.loader.Add(u, b)
 	}
-	o := d.opts()
+	if in.Hasher < 0 || in.Hasher >= len(d.hs) {
+		in.Hasher = 0
+	}
+	hs := d.hs[in.Hasher]
+	d.rep.Count("hasher:" + hs.name)
+	o := merklize.Options{DocumentLoader: d.loader, Hasher: hs.h}
+	d.cur = &o
+	defer func() { d.cur = nil }()
 	if in.Kind == "switch" && in.Prime != nil {
 		// the same context bytes were resolved before, when the loader served other content:
 		// the resolvers must not remember that answer
@@ -339,7 +374,15 @@ func (d *drv) runCase(in *caseInput) {
 			_ = d.loader.Add(u, b)
 		}
 	}
-	mz, mo := mzrun.Merklize(in.Doc, merklize.WithDocumentLoader(d.loader))
+	mopts := []merklize.MerklizeOption{merklize.WithDocumentLoader(d.loader)}
+	if hs.h != nil {
+		mopts = append(mopts, merklize.WithHasher(hs.h))
+	}
+	mz, mo := mzrun.Merklize(in.Doc, mopts...)
+	if mz != nil && in.MzOpts {
+		o = mz.Options() // the options a caller takes from the merklizer itself
+		d.rep.Count("options-from-merklizer")
+	}
 	d.rep.Count("merklize:" + mo.Class)
 	var stored map[string]mzrun.EntryView
 	switch mo.Class {
@@ -499,6 +542,33 @@ func (d *drv) runCase(in *caseInput) {
 			} else if lf.Declared != "" {
 				if err3 != nil || ty != lf.Declared {
 					d.fail(in, classifyCtx(lf, "c11-datatype-ctx"), fmt.Sprintf("TypeFromContext(%s) = %q (%v), declared and recorded datatype %q", strings.Join(tpath, "."), ty, err3, lf.Declared), path)
+				}
+			}
+		}
+		// the tree KEY: schema-side path (type prefix restored) == document-side path == key of the stored entry
+		if mz != nil && err == nil && lf.CtxOK && !lf.Leak && !lf.Member && exactKey(lf.Parts) && partsEqual(fp.Parts(), lf.Parts[lf.PrefixLen:]) {
+			d.rep.Count("key-comparison")
+			sp := fp
+			if lf.PrefixLen > 0 {
+				_ = sp.Prepend(lf.Parts[:lf.PrefixLen]...)
+			}
+			ks, es := sp.MtEntry()
+			dp, ed := mz.ResolveDocPath(path)
+			switch {
+			case es != nil:
+				d.fail(in, "c11-key-mismatch", fmt.Sprintf("schema-side path %v does not hash: %v", sp.Parts(), es), path)
+			case ed == nil:
+				kd, e2 := dp.MtEntry()
+				if e2 != nil || kd.Cmp(ks) != 0 {
+					d.fail(in, "c11-key-mismatch", fmt.Sprintf("[hasher %s] FieldPathFromContext(%s, %s) and ResolveDocPath(%s) have the same parts %v but different tree keys (%v vs %v)", hs.name, lf.TypeTerm, rel, path, sp.Parts(), ks, kd), path)
+					break
+				}
+				fallthrough
+			default:
+				if _, e := mz.Entry(sp); e != nil {
+					d.fail(in, "c11-key-mismatch", fmt.Sprintf("[hasher %s] the schema-side path %v denotes no stored entry: %v", hs.name, sp.Parts(), e), path)
+				} else if proof, _, e := mz.Proof(context.Background(), sp); e != nil || !proof.Existence {
+					d.fail(in, "c11-key-mismatch", fmt.Sprintf("[hasher %s] no existence proof under the schema-side path %v", hs.name, sp.Parts()), path)
 				}
 			}
 		}
@@ -662,6 +732,10 @@ func (d *drv) runCase(in *caseInput) {
 func (d *drv) fromDoc(g *gen, gd *gdoc) *caseInput {
 	r := d.cfg.Rng
 	in := &caseInput{Kind: "doc", Leaves: gd.Leaves, Nodes: gd.Nodes, Features: sortedKeys(gd.Features), Loader: map[string]json.RawMessage{}}
+	if r.Intn(2) == 0 {
+		in.Hasher = 1 + r.Intn(3)
+	}
+	in.MzOpts = r.Intn(2) == 0
 	in.Ctx = mustJSON(gd.CtxDoc)
 	if r.Intn(4) == 0 {
 		d.nURL++
@@ -925,7 +999,7 @@ func Run(cfg *common.Config) (*common.Report, error) {
 	rep := common.NewReport("C11")
 	rep.Correspondence = "JsonLD.Run.cmismatches: path_from_document / path_from_context / field_path_from_context / type_id_from_context / type_from_context (JsonLD/Resolvers.v) vs Merklizer.ResolveDocPath (Options.NewPathFromDocument) / Options.PathFromContext / FieldPathFromContext / TypeIDFromContext / TypeFromContext on the same context + document + path (path parts or error class); facts (JsonLD/Model.v) vs the entries MerklizeJSONLD stored (hook VerifEntries) as multisets of (path up to index numbering, datatype, string value)"
 	rep.Rule = "documents generated from random schema trees (depth<=3; type-scoped contexts with/without redefinitions and @propagate, property-scoped contexts, prefixes, keyword aliases, local contexts, remote contexts, arrays of literals/IRIs/nodes, heterogeneous node arrays), W3C-credential-shaped documents, contexts that fail to load; every field of every document is queried through all resolvers, plus out-of-range / misplaced index probes and unresolvable-path probes. distinct = distinct (document, context document) pairs; all are non-trivial (>= 1 field, >= 1 scoped or aliased context feature or a probe)."
-	d := &drv{cfg: cfg, rep: rep, loader: ctxload.New()}
+	d := &drv{cfg: cfg, rep: rep, loader: ctxload.New(), hs: hasherSet()}
 	merklize.SetDocumentLoader(d.loader)
 	if cfg.Replay != "" {
 		var rf struct {
